@@ -391,6 +391,40 @@ def threads_part_body(res, rng, big):
     ep.close()
 
 
+def handover_part(res, rng, big):
+    """The connection thread is descheduled inside `_on_connection_data_received` (modelled by a `ByteQueue.append` that first waits until
+    the receiver thread has had ample time to run, then appends).  Every frame is the LAST segment of its burst: nothing arrives after it,
+    so it has to be delivered by the wake-up that belongs to it."""
+    import time
+    ep = Endpoint()
+    buf = ep.p._receive_buffer
+    real_append = buf.append
+
+    def slow_append(data):
+        time.sleep(0.04)
+        return real_append(data)
+    buf.append = slow_append
+    n = 12 if big else 5
+    for i in range(n):
+        frames = gen_valid_frames(rng, 1)
+        vals, body, raw = frames[0]
+        before = len(ep.got)
+        segs = [raw] if i % 2 == 0 else [raw[:7], raw[7:]]
+        t0 = time.monotonic()
+        ep.feed(segs)
+        ok = M.wait_until(lambda: len(ep.got) >= before + 1 and len(ep.p._receive_buffer) == 0, 1.5)
+        res.count(("handover", raw, len(segs)), sample={"op": "last segment of a burst, connection thread delayed inside the handler", "segments": len(segs)} if i == 0 else None)
+        res.bump("handover", "delivered" if ok else "not delivered")
+        if not ok:
+            res.violate("lost-wakeup", "a completely received frame (last segment of its burst) is not delivered within 1.5 s when the "
+                        "connection thread is delayed inside _on_connection_data_received: the receiver thread was woken before the bytes were "
+                        "in the buffer", {"kind": "handover", "frame": raw.hex(), "segments": [x.hex() for x in segs]},
+                        "delivered", {"delivered": len(ep.got) - before, "buffered": len(ep.p._receive_buffer), "waited_s": round(time.monotonic() - t0, 2)})
+            break
+    buf.append = real_append
+    ep.close()
+
+
 def replay_cases(res, violations):
     """re-run recorded failing cases that carry their own data"""
     ep = None
@@ -424,12 +458,13 @@ def main():
                 "lengths; blocks: body lengths 0..300, 243..257, 4095, 65535/6 (thorough 1 MiB+1), truncated/extended/length-field variants; "
                 "receive loop without threads: valid and malformed streams (length<10, undefined SType, 4 zero bytes, overlong announcement) "
                 "in single bytes / one chunk / random cuts; with threads: every cut position of two-frame streams, single bytes, random "
-                "partitions, one segment, 1024-byte reads. distinct = distinct canonical input; non-trivial = not an input of the wrong size")
+                "partitions, one segment, 1024-byte reads; hand-over with the connection thread delayed inside the data handler. distinct = distinct canonical input; non-trivial = not an input of the wrong size")
     if recorded:
         replay_cases(res, recorded)
     for name, part in (("codec", lambda: codec_part(res, rng.fork("codec"), drv, big)),
                        ("feed", lambda: feed_part(res, rng.fork("feed"), drv, big)),
-                       ("threads", lambda: threads_part(res, rng.fork("threads"), big))):
+                       ("threads", lambda: threads_part(res, rng.fork("threads"), big)),
+                       ("handover", lambda: handover_part(res, rng.fork("handover"), big))):
         M.guarded(res, name, part)
     res.notes.append("quiescence of the threaded runs = expected number of blocks captured, receive buffer and dispatch queue empty (bound 5 s)")
     res.dump(a.out)
